@@ -256,7 +256,7 @@ class RectRef(Ref):
 
 
 class LineRef(Ref):
-    dim = 1
+    dim, accept = 1, None  # accept: extra point filter (defect models only)
     def __init__(self, chains, kind):
         self.a = np.array([p for ch in chains for p in ch[:-1]], float)
         self.b = np.array([p for ch in chains for p in ch[1:]], float)
@@ -280,8 +280,9 @@ class LineRef(Ref):
         cum = np.cumsum(self.len)
         s = (np.arange(M) + 0.5) / M * cum[-1]
         k = np.minimum(np.searchsorted(cum, s, side="right"), len(cum) - 1)
-        t = (s - (cum[k] - self.len[k])) / self.len[k]
-        return self.a[k] + t[:, None] * (self.b[k] - self.a[k])
+        t = ((s - (cum[k] - self.len[k])) / self.len[k])[:, None]
+        p = self.a[k] * (1.0 - t) + self.b[k] * t  # the library's interpolation formula, bit for bit
+        return p if self.accept is None else p[self.accept(p)]
 
 
 class BallRef(Ref):
@@ -335,7 +336,7 @@ class Comp(Ref):
         self.dim = {"intersect": min(A.dim, B.dim), "union": max(A.dim, B.dim), "difference": A.dim}[op]
         self.tol, self.zs = max(A.tol, B.tol), sorted(set(A.zs + B.zs))
         self.kind = f"{op}({A.kind},{B.kind})"
-        self.desc, self._measure = {"op": op, "A": A.desc, "B": B.desc}, None
+        self.desc, self._measure, self.weights = {"op": op, "A": A.desc, "B": B.desc}, None, None
 
     def sd(self, P):
         a, b = self.A.sd(P), self.B.sd(P)
@@ -360,9 +361,14 @@ class Comp(Ref):
             return p[B.sd(p) > 0]
         if A.dim != B.dim:
             return pts(A if A.dim > B.dim else B, M, salt)
-        tot = A.measure + B.measure
-        pb = pts(B, M * B.measure / tot, salt + 1)
-        return np.concatenate([pts(A, M * A.measure / tot, salt), pb[A.sd(pb) > 0]])
+        wa, wb = self.weights or (A.measure, B.measure)
+        pa, pb = pts(A, M * wa / (wa + wb), salt), pts(B, M * wb / (wa + wb), salt + 1)
+        if self.weights is None:
+            return np.concatenate([pa, pb[A.sd(pb) > 0]])
+        # operands chosen with other weights than their measures (defect models): in the overlap the sampler
+        # keeps a point of either operand with probability 1/2 -- thinned here by an independent base-13 digit
+        ka, kb = (B.sd(pa) > 0) | (vdc(np.arange(len(pa)), 13) < 0.5), (A.sd(pb) > 0) | (vdc(np.arange(len(pb)), 13) < 0.5)
+        return np.concatenate([pa[ka], pb[kb]])
 
     def _src_measure(self):
         A, B = self.A, self.B
